@@ -5,7 +5,7 @@ from vf.lazy import ck, libx, common
 from vf.monitors import algos
 
 PROP = "C09"
-TECHNIQUE = ('runtime monitoring with recording proxies as starting algorithms (the consensus each starter handed over is logged at the boundary); true scores by the reference model; designed local-search traps (6-25 and 1000+ elements); size classes with starters; aggregation again after an in-place mutation; starters given in a tuple / set / frozenset / dict view')
+TECHNIQUE = ('runtime monitoring with recording proxies as starting algorithms (the consensus each starter handed over is logged at the boundary); true scores by the reference model; designed local-search traps (6-25 and 1000+ elements); size classes with starters; aggregation again after an in-place mutation; starters given in a tuple / set / frozenset / dict view; both values of return_at_most_one_ranking; opposing two-bucket rankings with a unanimous winner')
 RULE = ("cases = dataset (D2-D4, D6-D11, string / int names in shuffled insertion order so that element-id order differs "
         "from the order in the starters' consensuses; n<=8) x scheme (S1-S3, S6) x starter list ({Borda}, {Copeland}, "
         "{KwikSort}, {PickAPerm}, {Borda,Copeland,KwikSort}, and the sharp detectors {ExactAlgorithmPulp} and {BioConsert} "
